@@ -100,7 +100,18 @@ def run_property(prop, tier='quick', seed=0, jobs=None, rebaseline=False, only=N
     t0 = time.time()
     reg = registry()
     todo = []
+    twin_targets = None
+    if prop == 'C14':
+        from contracts import twins
+        twin_targets = set(twins.differing_targets(reg))
     for i, c in enumerate(reg.contracts):
+        if twin_targets is not None:
+            if c.trusted:
+                continue
+            for t in c.targets():
+                if t in twin_targets and not (only and only not in t):
+                    todo.append((i, t, seed, 10000 if tier == 'quick' else 30000, tier == 'thorough'))
+            continue
         if prop in c.props and not c.trusted:
             for t in c.targets():
                 if only and only not in t:
@@ -120,6 +131,9 @@ def run_property(prop, tier='quick', seed=0, jobs=None, rebaseline=False, only=N
         results = [_job(t) for t in todo]
     from contracts import extra_checks
     extra = extra_checks.run(prop, tier, seed) if hasattr(extra_checks, 'run') else []
+    if prop == 'C14':
+        from contracts import twins
+        extra += twins.obligations(reg, {r['target']: r for r in results})
     return report(prop, tier, seed, results, extra, trusted, t0, rebaseline, verbose)
 
 
@@ -159,6 +173,7 @@ def report(prop, tier, seed, results, extra, trusted, t0, rebaseline, verbose):
     names = {o['name'] for o in obligations}
     res_status = {o['name']: o['status'] for o in obligations}
     violations = []
+    unreachable = []
     skipped = []
     known_lines = []
     discharged = 0
@@ -174,10 +189,17 @@ def report(prop, tier, seed, results, extra, trusted, t0, rebaseline, verbose):
             discharged += 1
             continue
         if st == 'vacuous':
+            if baseline is not None and o['name'] in baseline and o['kind'] == 'reach':
+                # the case was reachable on the unchanged tree: the code changed so that it no longer occurs (the contract
+                # over-approximates); reported, not a failure
+                unreachable.append(o['name'])
+                discharged += 1
+                continue
             problems['selfcheck'].append((o['name'], 'vacuous: %s' % o['kind']))
             continue
         if st == 'skipped':
             skipped.append(o['name'])
+            counted -= 1          # not examined: neither an obligation discharged nor one failed (listed in the evidence)
             continue
         kf = [k for k in known if k['obligation'] == o['name'] and k.get('status', 'open') == 'open']
         if kf and res_status.get(o['name'] + '#residual') == 'proved':
@@ -251,6 +273,7 @@ def report(prop, tier, seed, results, extra, trusted, t0, rebaseline, verbose):
             'undecided': [o['name'] for o in problems['undecided']],
             'refuted': [o['name'] for o in problems['refuted']],
             'not_examined_after_three_failures_in_the_function': skipped,
+            'specification_cases_no_longer_reachable': unreachable,
             'extraction': 'functions are read from %s on every run with ast; dropped: docstrings, comments, the effect of logging '
                           'calls (arguments still evaluated), the keywords async/await' % source.PKG_DIR,
             'obligation_list': sorted(names),
